@@ -1,12 +1,14 @@
 import Restli.Model.Encode
 import Restli.Model.Ror2Reader
 import Restli.Model.TreeReader
+import Restli.Proofs.Patch
 /-! # C11 — schema validity constraints on encode and decode (unions, enums, fixed)
 
 Statements about the generated marshalers/unmarshalers as modelled by `encode`, `readTy` (ROR2
 cursor reader) and `treeRead` (JSON reader on a parsed document), for every schema, value and
-input. Partial updates (`patch`/`$set`/`$delete`) are not modelled yet; that clause of the
-property is covered by neither theorem nor harness and is listed as missing. -/
+input. Partial updates (`patch`/`$set`/`$delete`) are modelled in `Model/Patch.lean`; their
+constraints are the last section. The round trip of partial updates in the patch shape is decided
+on every run by correspondence and by the direct oracle, not by a theorem. -/
 namespace Restli.Codec
 
 /-- a union with two or more members set can never be encoded -/
@@ -160,5 +162,82 @@ example : encode cfgEx 5 [] (.ref "U") (.union [([105], .i32 7), ([115], .str [1
 example : encode cfgEx 5 [] (.ref "U") (.union []) = .error .union := by rfl
 example : encode cfgEx 5 [] (.ref "E") (.enum 2) = .ok (.str [66]) := by rfl
 example : encode cfgEx 5 [] (.ref "E") (.enum 3) = .error .enum := by rfl
+
+/-! ## partial updates (`Model/Patch.lean`: the generated `X_PartialUpdate` bindings) -/
+
+/-- **encoding**: a partial update is emitted only if `CheckFields` accepts it, i.e. every field of
+the record (own or inherited through any chain of includes) that it deletes, sets or patches is
+not excluded at the writer's scope and carries exactly one of the three operations -/
+theorem c11_pu_encoded_only_if_legal (c : EncCfg) (fuel : Nat) (scope : List Bytes) (n : TName) (pu : PU)
+    (d : Doc) (h : marshalPatch c fuel scope n pu = .ok d) :
+    ∀ f ∈ allFields c.env (includeFuel c.env) n,
+      pu.touches c.env f = true →
+        c.excl.matchesB (scope ++ [f.name]) = false ∧ pu.conflicts c.env f = false := by
+  intro f hf ht
+  have := (checkFields_ok_iff c.env n pu _).1 (marshalPatch_ok_checked c fuel scope n pu d h) f hf
+  simp only [fieldLegal, ht, Bool.not_true, Bool.false_or, Bool.and_eq_true, Bool.not_eq_eq_eq_not] at this
+  exact this
+
+/-- set-and-delete, set-and-patch, delete-and-patch of one field: never encoded -/
+theorem c11_pu_conflict_never_encoded (c : EncCfg) (fuel : Nat) (scope : List Bytes) (n : TName) (pu : PU)
+    (f : Field) (hf : f ∈ allFields c.env (includeFuel c.env) n) (hc : pu.conflicts c.env f = true) :
+    ∀ d, marshalPatch c fuel scope n pu ≠ .ok d := by
+  intro d h
+  have ht : pu.touches c.env f = true := by
+    simp only [PU.conflicts, Bool.or_eq_true, Bool.and_eq_true] at hc
+    simp only [PU.touches, Bool.or_eq_true]
+    rcases hc with (⟨a, _⟩ | ⟨a, _⟩) | ⟨a, _⟩ <;> simp [a]
+  have := (c11_pu_encoded_only_if_legal c fuel scope n pu d h f hf ht).2
+  simp [hc] at this
+
+/-- **decoding**: whatever `UnmarshalRestLiPatch` returns is legal in the same sense (so a document
+that sets and deletes, sets and patches, or deletes and patches one field is rejected, whatever
+the order of its members and however often they are repeated) -/
+theorem c11_pu_decoded_only_if_legal (c : TCfg) (fuel : Nat) (scope : List Seg) (n : TName) (pu₀ pu : PU)
+    (t : Json.JVal) (m : List Bytes) (h : unmarshalPatch c fuel scope n pu₀ t = .ok pu m) :
+    ∀ f ∈ allFields c.env (includeFuel c.env) n,
+      pu.touches c.env f = true →
+        (c.tracker.check (scope ++ [.key f.name]) == .yes) = false ∧ pu.conflicts c.env f = false := by
+  intro f hf ht
+  have := (checkFields_ok_iff c.env n pu _).1 (unmarshalPatch_ok_checked c fuel scope n pu₀ pu t m h) f hf
+  simp only [fieldLegal, ht, Bool.not_true, Bool.false_or, Bool.and_eq_true, Bool.not_eq_eq_eq_not] at this
+  exact this
+
+/-- a `$delete` list that names a required field (own or inherited) is refused -/
+theorem c11_pu_delete_required_refused (c : TCfg) (fields : List Field) (pu : PU) (name : Bytes)
+    (x : Json.JVal) (xs : List Json.JVal) (f : Field) (hx : c.sem.str x = .ok name [])
+    (hf : findField fields name = some f) (hreq : f.optOrDefault = false) :
+    readDeletes c fields pu (x :: xs) = .err (.pu (.cannotDelete name)) :=
+  readDeletes_required c fields pu name x xs f hx hf hreq
+
+/-- conversely a legal partial update passes `CheckFields` (nothing else in `MarshalRestLiPatch`
+can fail but the encoding of the `$set` values and of nested patches) -/
+theorem c11_pu_legal_passes_check (env : Env) (n : TName) (pu : PU) (excluded : Bytes → Bool)
+    (h : ∀ f ∈ allFields env (includeFuel env) n, pu.touches env f = true →
+      excluded f.name = false ∧ pu.conflicts env f = false) :
+    ∃ fl, checkFields env n pu excluded = .ok fl := by
+  apply (checkFields_ok_iff env n pu excluded).2
+  intro f hf
+  unfold fieldLegal
+  cases ht : pu.touches env f with
+  | false => simp
+  | true =>
+    obtain ⟨a, b⟩ := h f hf ht
+    simp [a, b]
+
+/-! non-vacuity: a record with an include, a partial update that deletes an inherited optional
+field, sets an own field and patches a nested record — legal; the same with a second operation on
+one field — refused -/
+def envPU : Env :=
+  [("In", .record [] [⟨[105], .prim .i32, false, none⟩, ⟨[110], .prim .str, true, none⟩]),
+   ("B", .record [] [⟨[98], .prim .str, true, none⟩]),
+   ("R", .record ["B"] [⟨[114], .prim .i32, false, none⟩, ⟨[120], .ref "In", true, none⟩])]
+def cfgPU : EncCfg := { env := envPU, excl := .empty, sortKeys := true }
+def puOk : PU := .mk [[98]] [([114], .i32 5)] [([120], .mk [[110]] [] [])]
+example : marshalPU cfgPU 5 "R" puOk = .ok (.obj [(patchKey, .obj
+    [(deleteKey, .arr [.str [98]]), (setKey, .obj [([114], .int 5)]),
+     ([120], .obj [(deleteKey, .arr [.str [110]])])])]) := by rfl
+example : marshalPU cfgPU 5 "R" (.mk [[98]] [([98], .str [])] []) = .error (.pu (.conflict [98])) := by rfl
+example : marshalPU { cfgPU with excl := newPathSpec [[120, 47, 110]] } 5 "R" puOk = .error (.pu (.excluded [110])) := by rfl
 
 end Restli.Codec
